@@ -154,6 +154,7 @@ def run_stage(pid, stage, tier, seed, logdir):
 
     for s in range(nshard):
         spawn(s, 0)
+    t_start = time.time()
     hard_deadline = time.time() + budget * 3 + 900
     watchdog_fired = False
     while procs:
@@ -182,6 +183,16 @@ def run_stage(pid, stage, tier, seed, logdir):
             inp = Path(str(pp) + ".input")
             rec = {"shard": shard, "case": case, "rc": rc, "stderr": stderr, "variant": variant, "worker": worker,
                    "input_hex": inp.read_bytes().hex() if inp.exists() and inp.stat().st_size < (1 << 20) else None}
+            if rc == 3 and case is not None and variant.startswith("miri"):
+                # the interpreter is ~10^4 times slower: a case over budget is skipped (hangs are C01's
+                # business, decided on native builds), the shard goes on with its next case
+                slow.append({"case": case, "seconds": None, "unconfirmed": True, "skipped": "miri too slow"})
+                nxt = case + 1
+                while nxt % nshard != shard:
+                    nxt += 1
+                if nxt < cases and time.time() - t_start < budget:
+                    spawn(shard, nxt)
+                continue
             if rc == 3 and case is not None and any(c.get("hang") for c in crashes):
                 # one hang of this stage is already confirmed (that decides the verdict): do not spend
                 # 10x budgets on every further slow case, and stop feeding this shard
